@@ -4,10 +4,12 @@ package assets
 
 import (
 	"fmt"
+	"io"
 	"os"
 	"path/filepath"
 	"testing"
 
+	"github.com/refraction-networking/conjure/pkg/station/log"
 	pb "github.com/refraction-networking/conjure/proto"
 	"google.golang.org/protobuf/proto"
 	"pgregory.net/rapid"
@@ -35,6 +37,7 @@ func c20GenKill(rt *rapid.T) c20Case {
 		}
 		c.Ops = append(c.Ops, op)
 	}
+	c.XDev = rapid.Bool().Draw(rt, "xdev") // half of the kills with TMPDIR on another file system
 	c.KillAt = rapid.IntRange(0, n-1).Draw(rt, "killAt")
 	// 0–3 ms after the announced start; small offsets are drawn more often because a small store
 	// lasts only 50–200 µs. A multi-megabyte store lasts 3–20 ms here (measured), so for those cases
@@ -122,6 +125,47 @@ func c20CheckKill(t vh.Fataler, rec *vh.Rec, root string, c c20Case) {
 			verdict = fmt.Sprintf("ClientConf after the kill (%d bytes, parse error: %v) %s", len(file), perr, c20Brief(got))
 		}
 	}
+	if c.XDev && res.xdev {
+		classes = append(classes, "xdev-tmpdir")
+		if inFlight {
+			classes = append(classes, "xdev-tmpdir:kill-in-flight")
+		}
+	} else if c.XDev {
+		classes = append(classes, "xdev-unavailable")
+	}
+
+	// Restart: load the directory the way a starting client does (fresh singleton, AssetsSetDir). What
+	// it then has in effect and the file it leaves behind must again be one of the allowed
+	// configurations — a left-over temporary file of the killed store must not be promoted.
+	if verdict == "" && spurious == "" {
+		isAllowed := func(m *pb.ClientConf) bool {
+			for _, a := range allowed {
+				if a != nil && proto.Equal(m, a) {
+					return true
+				}
+			}
+			return false
+		}
+		fresh, lerr := c20Fresh(res.dir)
+		var loaded *pb.ClientConf
+		if fresh != nil {
+			loaded = c20Norm(fresh.GetClientConfPtr())
+		}
+		file2, rerr2 := os.ReadFile(filepath.Join(res.dir, c20File))
+		got2 := &pb.ClientConf{}
+		classes = append(classes, "reload-checked")
+		switch {
+		case rerr2 != nil:
+			form = "reload:missing"
+			verdict = fmt.Sprintf("after a fresh client loaded the directory (load error %v) ClientConf cannot be read: %v", lerr, rerr2)
+		case proto.Unmarshal(file2, got2) != nil || !isAllowed(got2):
+			form = "reload:" + c20Form(file2, allowed...)
+			verdict = fmt.Sprintf("right after the kill the file was an allowed configuration, but after a fresh client loaded the directory (AssetsSetDir on a new singleton, load error %v; %d temporary files were lying there) ClientConf (%d bytes) %s", lerr, strays, len(file2), c20Brief(got2))
+		case lerr != nil || loaded == nil || !isAllowed(loaded):
+			form = "reload-memory"
+			verdict = fmt.Sprintf("a fresh client loading the directory (load error %v) has %s in effect", lerr, c20Brief(loaded))
+		}
+	}
 	rec.Case(inFlight, vh.Digest(c), c, classes...)
 	if verdict != "" {
 		state := fmt.Sprintf("after store %d completed", res.lastDone)
@@ -138,10 +182,12 @@ func c20CheckKill(t vh.Fataler, rec *vh.Rec, root string, c c20Case) {
 }
 
 func TestVerif_C20_kill(t *testing.T) {
-	rec := vh.NewRec("C20", "kill", "rapid draws a sequence of 1-30 stores (SetClientConf/SetDecoys/SetPubkey/SetGeneration/SetPhantomSubnets; content a function of the index; half of the cases contain 1-6 MiB configurations), a store index K and an offset 0-3000 µs (0-25000 µs in multi-MiB cases, whose stores last 3-20 ms); a re-executed child performs the stores on a fresh pre-seeded directory announcing start/done on a pipe and is SIGKILLed offset µs after announcing start K; afterwards the ClientConf file must parse and be proto.Equal to the model configuration of the last completed store or of the store in flight. Non-trivial = the kill landed between a start and its done (measured from the pipe); distinct = distinct (sequence, kill point)")
+	rec := vh.NewRec("C20", "kill", "rapid draws a sequence of 1-30 stores (SetClientConf/SetDecoys/SetPubkey/SetGeneration/SetPhantomSubnets; content a function of the index; half of the cases contain 1-6 MiB configurations), a store index K and an offset 0-3000 µs (0-25000 µs in multi-MiB cases, whose stores last 3-20 ms); a re-executed child performs the stores on a fresh pre-seeded directory announcing start/done on a pipe and is SIGKILLed offset µs after announcing start K; afterwards the ClientConf file must parse and be proto.Equal to the model configuration of the last completed store or of the store in flight, and the same must hold for the file and for the configuration in effect after the directory has been loaded by a fresh singleton (restart: a left-over temporary file must not be promoted). Half of the cases run the child with TMPDIR on another file system than the assets directory (st_dev compared; class xdev-tmpdir, xdev-unavailable if there is none). Non-trivial = the kill landed between a start and its done (measured from the pipe); distinct = distinct (sequence, kill point)")
 	defer rec.Flush()
 	rec.Require("kill-in-flight", "in-flight-multiMB", "in-flight-small")
 	root := t.TempDir()
+	log.SetOutput(io.Discard) // the parent loads directories itself (restart check)
+	defer log.SetOutput(os.Stdout)
 	if p := vh.ReplayFile(); p != "" {
 		var c c20Case
 		if _, _, err := vh.LoadReplay(p, &c); err != nil {
